@@ -10,3 +10,4 @@ import PasskeyVerif.Props.C08
 import PasskeyVerif.Props.C11
 import PasskeyVerif.Props.C02
 import PasskeyVerif.Props.C03
+import PasskeyVerif.Props.C09
